@@ -26,6 +26,7 @@ import (
 	sdk "github.com/cosmos/cosmos-sdk/types"
 	authtypes "github.com/cosmos/cosmos-sdk/x/auth/types"
 	banktypes "github.com/cosmos/cosmos-sdk/x/bank/types"
+	consensustypes "github.com/cosmos/cosmos-sdk/x/consensus/types"
 	distrtypes "github.com/cosmos/cosmos-sdk/x/distribution/types"
 	govtypes "github.com/cosmos/cosmos-sdk/x/gov/types"
 	govv1 "github.com/cosmos/cosmos-sdk/x/gov/types/v1"
@@ -39,6 +40,7 @@ import (
 	coinomicstypes "github.com/haqq-network/haqq/x/coinomics/types"
 	erc20types "github.com/haqq-network/haqq/x/erc20/types"
 	evmtypes "github.com/haqq-network/haqq/x/evm/types"
+	feemarkettypes "github.com/haqq-network/haqq/x/feemarket/types"
 	liquidvestingtypes "github.com/haqq-network/haqq/x/liquidvesting/types"
 	vestingtypes "github.com/haqq-network/haqq/x/vesting/types"
 )
@@ -211,7 +213,7 @@ func routeMsg(a *app.Haqq, ctx sdk.Context, msg sdk.Msg) error {
 	return err
 }
 
-var bhParamModules = []string{"erc20", "evm", "bank", "banksend", "staking", "distribution", "gov", "slashing", "coinomics", "liquidvesting"}
+var bhParamModules = []string{"erc20", "evm", "bank", "banksend", "staking", "distribution", "gov", "slashing", "coinomics", "liquidvesting", "feemarket", "consensus"}
 
 func parseBool(v string) (bool, error) {
 	switch v {
@@ -414,6 +416,78 @@ func (r *Replica) paramMsgs(ctx sdk.Context, t bhTx) ([]sdk.Msg, error) {
 			}
 		}
 		return legacy(coinomicstypes.ModuleName, ch)
+	case "feemarket":
+		// every field of the module's parameters; the ranges are those of its own validation, except that
+		// ElasticityMultiplier = 0 is refused here (it passes Params.Validate and halts every node in the next BeginBlock)
+		p := a.FeeMarketKeeper.GetParams(ctx)
+		for _, kv := range t.X {
+			switch kv[0] {
+			case "NoBaseFee":
+				b, err := parseBool(kv[1])
+				if err != nil {
+					return nil, err
+				}
+				p.NoBaseFee = b
+			case "BaseFee":
+				v, ok := new(big.Int).SetString(kv[1], 10)
+				if !ok {
+					return nil, fmt.Errorf("param feemarket: bad BaseFee %q", kv[1])
+				}
+				p.BaseFee = sdkmath.NewIntFromBigInt(v)
+			case "MinGasPrice", "MinGasMultiplier":
+				d, err := dec(kv[1])
+				if err != nil {
+					return nil, err
+				}
+				if kv[0] == "MinGasPrice" {
+					p.MinGasPrice = d
+				} else {
+					p.MinGasMultiplier = d
+				}
+			case "BaseFeeChangeDenominator", "ElasticityMultiplier":
+				n, err := strconv.ParseUint(kv[1], 10, 32)
+				if err != nil {
+					return nil, err
+				}
+				if kv[0] == "BaseFeeChangeDenominator" {
+					p.BaseFeeChangeDenominator = uint32(n)
+				} else {
+					if n == 0 {
+						return nil, fmt.Errorf("param feemarket: ElasticityMultiplier 0 is not generated (halts every node)")
+					}
+					p.ElasticityMultiplier = uint32(n)
+				}
+			case "EnableHeight":
+				n, err := strconv.ParseInt(kv[1], 10, 64)
+				if err != nil {
+					return nil, err
+				}
+				p.EnableHeight = n
+			default:
+				return nil, bad(kv[0])
+			}
+		}
+		return []sdk.Msg{&feemarkettypes.MsgUpdateParams{Authority: auth, Params: p}}, nil
+	case "consensus": // the consensus parameter Block.MaxGas (x/consensus MsgUpdateParams; in force from the next block)
+		cp, err := a.ConsensusParamsKeeper.Get(ctx)
+		if err != nil || cp == nil || cp.Block == nil || cp.Evidence == nil || cp.Validator == nil {
+			return nil, fmt.Errorf("param consensus: no stored consensus parameters")
+		}
+		blk := *cp.Block
+		for _, kv := range t.X {
+			if kv[0] != "MaxGas" {
+				return nil, bad(kv[0])
+			}
+			n, err := strconv.ParseInt(kv[1], 10, 64)
+			if err != nil {
+				return nil, err
+			}
+			if n == 0 {
+				return nil, fmt.Errorf("param consensus: MaxGas 0 is not generated (gas target 0 halts every node)")
+			}
+			blk.MaxGas = n
+		}
+		return []sdk.Msg{&consensustypes.MsgUpdateParams{Authority: auth, Block: &blk, Evidence: cp.Evidence, Validator: cp.Validator}}, nil
 	case "liquidvesting":
 		var ch []paramproposal.ParamChange
 		for _, kv := range t.X {
@@ -474,6 +548,10 @@ func (g *bhGenerator) genParam(h *histRun, t *bhTx) {
 		return
 	}
 	mods := []string{"erc20", "erc20", "erc20", "erc20", "erc20", "evm", "evm", "bank", "banksend", "staking", "staking", "distribution", "distribution", "gov", "gov", "slashing", "coinomics", "coinomics", "liquidvesting"}
+	if g.fee != nil && g.fee.fee != nil {
+		// a history with a fee-market regime also moves it on the way
+		mods = append(mods, "feemarket", "feemarket", "feemarket", "feemarket", "feemarket", "consensus", "consensus")
+	}
 	t.S = mods[r.Intn(len(mods))]
 	set := func(key, old, val string) {
 		t.X = append(t.X, [2]string{key, val})
@@ -554,6 +632,31 @@ func (g *bhGenerator) genParam(h *histRun, t *bhTx) {
 		} else {
 			set("RewardCoefficient", p.RewardCoefficient.String(), pickS("0", "7.8", "50"))
 		}
+	case "feemarket":
+		p := a.FeeMarketKeeper.GetParams(ctx)
+		low := g.fee != nil && g.fee.name == "low-base-fee"
+		switch k := r.Intn(100); {
+		case k < 30:
+			if low {
+				set("BaseFee", p.BaseFee.String(), pickS("0", "1", "3", "7", "8", "9", "20", "64"))
+			} else {
+				set("BaseFee", p.BaseFee.String(), pickS("0", "7", "100", "1000000000", "30000000000"))
+			}
+		case k < 45:
+			set("MinGasPrice", p.MinGasPrice.String(), pickS("0", "0", "0.5", "1", "10", "1000000000"))
+		case k < 60:
+			set("BaseFeeChangeDenominator", fmt.Sprint(p.BaseFeeChangeDenominator), pickS("1", "2", "8", "8", "50", "1000", "4294967295"))
+		case k < 75:
+			set("ElasticityMultiplier", fmt.Sprint(p.ElasticityMultiplier), pickS("1", "2", "2", "3", "4", "10"))
+		case k < 88:
+			set("MinGasMultiplier", p.MinGasMultiplier.String(), pickS("0", "0.1", "0.5", "1"))
+		case k < 96:
+			set("NoBaseFee", boolS(p.NoBaseFee), boolS(!p.NoBaseFee))
+		default:
+			set("EnableHeight", fmt.Sprint(p.EnableHeight), fmt.Sprint(h.Rep.Height+int64(r.Intn(3))))
+		}
+	case "consensus":
+		set("MaxGas", fmt.Sprint(h.Rep.blockMaxGas(ctx)), pickS("-1", "6000000", "8000000", "12000000", "20000000", "40000000"))
 	case "liquidvesting":
 		p := a.LiquidVestingKeeper.GetParams(ctx)
 		if r.Chance(60) {
